@@ -43,7 +43,11 @@ func (*c01) Assumptions() []string {
 	}
 }
 
-func (*c01) Config(tier string) fw.Config { return fw.Config{MemLimitMB: 2500} }
+// termination is not this property's claim (C04/C05 decide it): a case that exhausts the watchdog's
+// CPU allowance is a generated program that is too expensive, counted as inconclusive
+func (*c01) Config(tier string) fw.Config {
+	return fw.Config{MemLimitMB: 2500, CrashInconclusive: true}
+}
 
 // ---- host inputs
 
